@@ -659,12 +659,12 @@ def public_api(ck):
 # ------------------------------------------------------------------------------------------
 # paths of the scratch tree the convenience functions are called on: (relative path, kind)
 DISPATCH_TREE = [
-    ("f.a", "file"), ("f.b", "file"), ("f.yml", "file"), ("f.yaml", "file"), ("f.zz", "file"), ("noext", "file"),
+    ("f.a", "file"), ("f.A", "file"), ("f.b", "file"), ("f.yml", "file"), ("f.yaml", "file"), ("f.zz", "file"), ("noext", "file"),
     (".a", "file"), ("f.", "file"), ("g.tar.a", "file"), ("..b", "file"), ("d.x/inner", "file"), ("d.x/f.b", "file"),
     ("folder", "dir"), ("dir.a", "dir"), ("missing.a", "absent"), ("missing", "absent"), ("newdir/new.b", "absent"),
     ("d.x/gone", "absent"),
 ]
-REGULAR = {"f.a": "a", "f.b": "b", "f.yml": "yaml", "f.yaml": "yaml", "f.zz": "zz"}   # the oracle's own reading
+REGULAR = {"f.a": "a", "f.A": "A", "f.b": "b", "f.yml": "yaml", "f.yaml": "yaml", "f.zz": "zz"}   # the oracle's own reading
 
 
 def oracle_format(fname: str, rel: str, kind: str, given):
@@ -777,7 +777,9 @@ def dispatch_stream(ck, only=None):
     proj_methods["save_result"] = rec("save_result", lambda: [])
     data_methods = {"load_dataset": rec("load_dataset", lambda: xr.Dataset({"data": (("a",), [1.0])})),
                     "save_dataset": rec("save_dataset", lambda: None)}
-    names = ["a", "yml", "yaml", "b"]
+    # "A" next to "a": registry keys are case sensitive, and so is the format inferred from an extension (round-2 seeded
+    # change C19-5: infer_file_format lower-cased the extension)
+    names = ["a", "yml", "yaml", "b", "A"]
     for which in ("project", "data"):
         if only and only["api"] != which:
             continue
